@@ -812,6 +812,8 @@ def _(E, c):
 @model('re:^<' + INT_RE + ' as (Add|Sub|Mul|Div|Rem)>::(add|sub|mul|div|rem)$')
 def _(E, c):
     a, b = E.deref(c.args[0]), E.deref(c.args[1])
+    if not isinstance(a, IntV) or not isinstance(b, IntV):
+        return NotImplemented
     name = {'add': 'AddWithOverflow', 'sub': 'SubWithOverflow', 'mul': 'MulWithOverflow', 'div': 'Div', 'rem': 'Rem'}[c.callee.idents[-1]]
     r = E.int_binop(name, a, b)
     if isinstance(r, StructV):
@@ -2093,3 +2095,56 @@ def _(E, c):
 @model('re:^<PeekingTakeWhile as Iterator>::')
 def _(E, c):
     return NotImplemented
+
+
+# ---------------------------------------------------------------------------------------
+# lazy_static!: `<NAME as Deref>::deref` evaluates the NAME's initialiser (the k-th `__static_ref_initialize` of
+# the defining module, in source order)
+
+def _lazy_static_index():
+    import glob
+    import os
+    out = {}
+    for p in glob.glob(os.path.join(srcindex.REPO, 'actors', '*', 'src', '**', '*.rs'), recursive=True) + \
+            glob.glob(os.path.join(srcindex.REPO, 'runtime', 'src', '**', '*.rs'), recursive=True):
+        try:
+            src = open(p, errors='replace').read()
+        except OSError:
+            continue
+        if 'lazy_static!' not in src:
+            continue
+        names = re.findall(r'static\s+ref\s+([A-Z0-9_]+)\s*:', src)
+        mod = os.path.splitext(os.path.basename(p))[0]
+        crate_dir = p.split('/src/')[0]
+        for i, n in enumerate(names):
+            out.setdefault(n, []).append((crate_dir, mod, i))
+    return out
+
+
+_LS = {}
+
+
+@model('re:^<[A-Z][A-Z0-9_]+ as Deref>::deref$')
+def _(E, c):
+    name = type_head(c.callee.qself)
+    key = ('lazy_static', name)
+    if key in E.const_cache:
+        return E.const_cache[key]
+    if not _LS:
+        _LS.update(_lazy_static_index())
+    locs = _LS.get(name)
+    if not locs:
+        return NotImplemented
+    crate_dir, mod, idx = locs[0]
+    cands = [f for f in E.prog.by_last.get('__static_ref_initialize', [])
+             if 'lazy_static' in f.name and (f.name.startswith(mod + '::') or ('::' + mod + '::') in f.name)]
+    if c.frame is not None:
+        same = [f for f in cands if f.crate == c.frame.fn.crate]
+        cands = same or cands
+    cands.sort(key=lambda f: (f.crate, f.line))
+    if idx >= len(cands):
+        raise Inconclusive('lazy_static %s: initialiser #%d not found (%d candidates)' % (name, idx, len(cands)))
+    v = E.run_function(cands[idx], [])
+    r = RefV(Cell(v, 'static:' + name), ())
+    E.const_cache[key] = r
+    return r
